@@ -63,6 +63,12 @@ func c13Generic(c *run.C) {
 	r := c.R
 	path := c11Paths[c.Idx%4]
 	s := gen.Stream(r, gen.StreamOpts{MaxDepth: 6, MaxNodes: 50, Extended: true, Refs: true, BadUTF8: path != "json", SpecialF: path != "json", TypedBasic: true, Deep: true, NoDupKeys: true})
+	if c.Idx%8 == 5 {
+		// deeper than any pre-allocated stack or buffer of the unfolder
+		levels := gen.Pick(r, []int{4, 5, 6, 8, 9, 16, 17, 31, 32, 33, 40, 65})
+		s = gen.WrapDeep(r, s, levels)
+		c.Observe("generic_deep_wrapped", 1)
+	}
 	c.Begin(map[string]interface{}{"path": path, "stream": s})
 	var target interface{}
 	u, err := gotype.NewUnfolder(&target)
